@@ -496,6 +496,7 @@ type capCase struct {
 	Payload string `json:"payload"` // index into payloads
 	Shape   string `json:"shape"`   // one, two, two-x2, allowed-failure, chain, failed-chain
 	Export  string `json:"export"`
+	Format  string `json:"format,omitempty"` // output format of the runner (default raw): what is captured must not depend on it
 }
 
 var nonNameRe = regexp.MustCompile("[^a-zA-Z0-9_]")
@@ -516,6 +517,9 @@ func runCapture(c capCase) string {
 		return "infra: " + err.Error()
 	}
 	r.Stdout, r.Stderr, r.OutputFormat = &buf, io.Discard, output.FormatRaw
+	if c.Format != "" {
+		r.OutputFormat = c.Format
+	}
 	t := task.NewTask()
 	t.Name = c.Name
 	t.ExportAs = c.Export
@@ -541,6 +545,11 @@ func runCapture(c capCase) string {
 		// command 2 prints the previous command's output through the .Output template variable
 		t.Commands = []string{"printf '%s' 'first out'", "printf '%s' '<{{.Output}}>'", "printf '%s' '[{{.Output}}]'"}
 		want = "first out" + "<first out>" + "[<first out>]"
+	case "ansi-split":
+		// an escape sequence that begins in one command's output and ends in the next one's (and one cut
+		// inside a single command by a pause): capture is about bytes, whatever the display does with them
+		t.Commands = []string{"printf 'start \\033['", "printf '1;31mred\\033[0m\\n'; printf 'x\\033[3'; printf '2mgreen\\033[0m'", emit}
+		want = "start \x1b[" + "1;31mred\x1b[0m\n" + "x\x1b[3" + "2mgreen\x1b[0m" + pl
 	case "failed-chain":
 		// the same hand-over when the producing command fails and the task allows failure
 		t.Commands = []string{"printf '%s' 'first out'; exit 3", "printf '%s' '<{{.Output}}>'; exit 4", "printf '%s' '[{{.Output}}]'"}
@@ -590,7 +599,7 @@ func captureUnit(res *common.Result) {
 			return false
 		}
 		res.Evaluations++
-		distinct[c.Payload+"/"+c.Shape+"/"+c.Export] = true
+		distinct[c.Payload+"/"+c.Shape+"/"+c.Export+"/"+c.Format] = true
 		if res.Evaluations%53 == 1 {
 			res.AddSample(c)
 		}
@@ -600,7 +609,7 @@ func captureUnit(res *common.Result) {
 			os.Exit(2)
 		}
 		if d != "" {
-			return res.AddViolation(common.Violation{Property: "C11", Key: fmt.Sprintf("C11:capture|%q|%s|%s|%s", c.Name, c.Payload, c.Shape, c.Export), Desc: fmt.Sprintf("%+v: %s", c, d), Config: c},
+			return res.AddViolation(common.Violation{Property: "C11", Key: fmt.Sprintf("C11:capture|%q|%s|%s|%s|%s", c.Name, c.Payload, c.Shape, c.Export, c.Format), Desc: fmt.Sprintf("%+v: %s", c, d), Config: c},
 				map[string]interface{}{"harness": "taskrun", "mode": "plain", "property": "C11", "cap": c})
 		}
 		return false
@@ -618,9 +627,19 @@ func captureUnit(res *common.Result) {
 			}
 		}
 	}
+	// the capture must not depend on the output format
+	for _, f := range []string{output.FormatPrefixed, output.FormatCockpit} {
+		for _, p := range pls {
+			for _, sh := range []string{"one", "two-x2", "allowed-failure", "chain", "failed-chain", "ansi-split"} {
+				if do(capCase{Name: "plain", Payload: p, Shape: sh, Format: f}) {
+					return
+				}
+			}
+		}
+	}
 	for _, n := range []string{"plain", "a.b", "build:all"} {
 		for _, p := range pls {
-			for _, sh := range []string{"one", "two", "two-x2", "allowed-failure", "chain", "failed-chain"} {
+			for _, sh := range []string{"one", "two", "two-x2", "allowed-failure", "chain", "failed-chain", "ansi-split"} {
 				for _, ex := range []string{"", "MYVAR"} {
 					if do(capCase{Name: n, Payload: p, Shape: sh, Export: ex}) {
 						return
@@ -640,6 +659,7 @@ type toCase struct {
 	Position  string `json:"position"` // "1","2","3","before","after"
 	Allow     bool   `json:"allow"`
 	Prior     bool   `json:"prior,omitempty"` // the command before the overrunning one exits non-zero (tolerated: allow_failure)
+	Var2      bool   `json:"var2,omitempty"`  // the task has two variations and the command overruns in the second one only
 }
 
 func runTimeout(c toCase) string {
@@ -703,6 +723,12 @@ func runTimeout(c toCase) string {
 				t.Commands[p-2] += "; exit 3"
 			}
 			want = []string{"b"}
+			if c.Var2 {
+				// every command of every variation is bounded by the timeout: the first variation runs through
+				t.Variations = []map[string]string{{"SLOW": "0"}, {"SLOW": "1"}}
+				t.Commands[p-1] = mark(fmt.Sprintf("m%d", p)) + "; if [ \"$SLOW\" = 1 ]; then " + over + "; fi"
+				want = append(want, "m1", "m2", "m3")
+			}
 			for i := 1; i <= p; i++ {
 				want = append(want, fmt.Sprintf("m%d", i))
 			}
@@ -752,7 +778,7 @@ func timeoutUnit(res *common.Result) {
 			return false
 		}
 		res.Evaluations++
-		distinct[fmt.Sprint(c.Shape, c.Position, c.Allow, c.Prior)] = true
+		distinct[fmt.Sprint(c.Shape, c.Position, c.Allow, c.Prior, c.Var2)] = true
 		if res.Evaluations%5 == 1 {
 			res.AddSample(c)
 		}
@@ -772,7 +798,7 @@ func timeoutUnit(res *common.Result) {
 			}
 		}
 		parts := strings.SplitN(d, ":", 3)
-		return res.AddViolation(common.Violation{Property: "C13", Key: fmt.Sprintf("C13:%s|shape=%s|position=%s|allow=%v|prior=%v|timeout=%dms", parts[1], c.Shape, c.Position, c.Allow, c.Prior, c.TimeoutMs), Desc: fmt.Sprintf("%+v: %s", c, parts[2]), Config: c},
+		return res.AddViolation(common.Violation{Property: "C13", Key: fmt.Sprintf("C13:%s|shape=%s|position=%s|allow=%v|prior=%v|var2=%v|timeout=%dms", parts[1], c.Shape, c.Position, c.Allow, c.Prior, c.Var2, c.TimeoutMs), Desc: fmt.Sprintf("%+v: %s", c, parts[2]), Config: c},
 			map[string]interface{}{"harness": "taskrun", "mode": "plain", "property": "C13", "to": c})
 	}
 	timeouts := []int{100, 1000}
@@ -796,6 +822,10 @@ func timeoutUnit(res *common.Result) {
 			for _, pos := range []string{"1", "2", "3", "before", "after"} {
 				for _, allow := range []bool{false, true} {
 					if do(toCase{TimeoutMs: ms, Shape: shape, Position: pos, Allow: allow}) {
+						return
+					}
+					// the overrun happens in the second variation only
+					if shape == "sleep" && (pos == "1" || pos == "2" || pos == "3") && do(toCase{TimeoutMs: ms, Shape: shape, Position: pos, Allow: allow, Var2: true}) {
 						return
 					}
 					// a tolerated failure of the preceding command must not change anything
